@@ -79,6 +79,37 @@ func runC01(rep *Report, r *Rng, tier string) {
 		c := &IdxCase{Data: d, Writer: w, Cache: -1, Queries: []QCase{{E: E("a", "bx")}, {E: E("ab", "x")}, {E: E("a", "b")}, {E: E("ab", "")}, {E: &Ex{Op: "N", Kids: []*Ex{E("ab", "x")}}, GB: []string{hx("a")}}}}
 		runIdxCase(o, c, rep, flagsFor("C01"))
 	}
+	// corpus: more than one 65536-row block; values that fill a whole block, runs ending exactly at the last row of a
+	// block / starting at its first, sparse values next to them; ORs of three and more operands inside ANDs
+	{
+		ns := []int{70000}
+		if tier == "thorough" {
+			ns = []int{65536, 70000, 140000}
+		}
+		E := func(c, v string) *Ex { return &Ex{Op: "E", C: hx(c), V: hx(v)} }
+		N := func(x *Ex) *Ex { return &Ex{Op: "N", Kids: []*Ex{x}} }
+		A := func(xs ...*Ex) *Ex { return &Ex{Op: "A", Kids: xs} }
+		O := func(xs ...*Ex) *Ex { return &Ex{Op: "O", Kids: xs} }
+		for _, n := range ns {
+			d := &DataSpec{Seed: r.U64(), NRows: n, Cols: []ColSpec{
+				{Name: hx("e"), NVals: 5, Dist: "edge", Style: "ascii"},
+				{Name: hx("region"), NVals: 2, Dist: "block", Style: "ascii"},
+				{Name: hx("t"), NVals: 3, Dist: "random", Style: "ascii"}}}
+			qs := []QCase{
+				{E: A(E("t", "0"), O(E("e", "0"), E("e", "2"), E("e", "3")))},
+				{E: A(E("region", "0"), O(E("e", "0"), E("e", "1"), E("e", "2"), E("e", "4")))},
+				{E: A(O(E("region", "0"), E("region", "1"), E("t", "2")), N(E("e", "0")))},
+				{E: A(E("t", "1"), N(E("e", "1")), O(E("e", "3"), E("e", "0"), E("e", "2")))},
+				{E: O(E("e", "0"), E("e", "1"), E("e", "2"))}, {E: N(E("region", "0"))}, {E: E("region", "0")},
+				{E: A(O(E("e", "1"), E("region", "1"), E("e", "4")), N(E("t", "0")), N(E("e", "2")))},
+				{E: E("e", "0"), GB: []string{hx("region"), hx("t")}}, {E: E("region", "0")}, {E: E("e", "0")}}
+			for _, pre := range []bool{false, true} {
+				c := &IdxCase{Data: d, Writer: "mem", Preload: pre, Cache: -1, Queries: qs}
+				runIdxCase(o, c, rep, flagsFor("C01"))
+				rep.Count("block-edge-datasets")
+			}
+		}
+	}
 	sizes := []int{1000, 4096}
 	if tier == "thorough" {
 		sizes = append(boundarySizes, 150000)
@@ -356,7 +387,8 @@ func runC03(rep *Report, r *Rng, tier string) {
 		for k := 0; k < 3; k++ {
 			n := []int{70000, 100000, 140000}[k]
 			d := &DataSpec{Seed: r.U64(), NRows: n, Cols: []ColSpec{
-				{Name: hx("region"), NVals: 2, Dist: "run", Style: "ascii"}, // long runs: whole 65536-row blocks of one value
+				{Name: hx("region"), NVals: 2, Dist: "block", Style: "ascii"}, // whole aligned 65536-row blocks of one value
+				{Name: hx("e"), NVals: 5, Dist: "edge", Style: "ascii"},
 				{Name: hx("tier"), NVals: 3, Dist: "random", Style: "ascii"},
 				{Name: hx("status"), NVals: 50, Dist: "random", Style: "ascii"},
 				{Name: hx("b"), NVals: 2, Dist: "dense", Style: "ascii"}}}
@@ -372,7 +404,9 @@ func runC03(rep *Report, r *Rng, tier string) {
 						{E: A(E("b", "0"), O(E("tier", "0"), E("tier", "1"), E("region", "1")))},
 						{E: A(O(E("b", "0"), E("region", "1"), E("tier", "1")), N(E("tier", "0")), N(E("status", "3")))},
 						{E: E("b", "0")}, {E: E("region", "1"), GB: []string{hx("tier")}},
-						{E: O(N(E("region", "1")), A(E("tier", "1"), N(E("b", "0"))))}, {E: E("tier", "2")}, {E: E("status", "7")}}}
+						{E: A(O(E("e", "1"), E("region", "0"), E("e", "2"), E("tier", "1")), N(E("status", "3")), N(E("e", "0")))},
+						{E: E("region", "0")}, {E: E("region", "1")}, {E: A(E("tier", "0"), O(E("e", "0"), E("e", "2"), E("e", "3")))},
+						{E: O(N(E("region", "1")), A(E("tier", "1"), N(E("b", "0"))))}, {E: E("tier", "2")}, {E: E("status", "7")}, {E: E("region", "0")}}}
 					runIdxCase(o, c, rep, flagsFor("C03"))
 					rep.Count("large-index-histories")
 				}
